@@ -280,6 +280,10 @@ class ForestRoundTrip(Contract):
             # documented normalisation: a path filed under an arch outside the variant's arch set is not stored
             d.entries.append(Entry(arch2, True, "foreign/%s" % tag))
             v.fields["paths"].fields["os_tree"] = d
+            # ... in EVERY category, also for the name 'src' under a source category (the foreign arch is any string but the variant's)
+            d3 = E.models.new_dict("source_tree")
+            d3.entries.append(Entry(arch2, True, "foreign-src/%s" % tag))
+            v.fields["paths"].fields["source_tree"] = d3
             # ... and neither is an empty path
             d2 = E.models.new_dict("packages")
             d2.entries.append(Entry(arch, True, ""))
@@ -309,7 +313,7 @@ class ForestRoundTrip(Contract):
             tops.reverse()
         for k, v in tops:
             ci.fields["variants"].fields["variants"].entries.append(Entry(k, True, v))
-        return {"ci": ci, "ci2": ci2, "vs": vs, "arch": arch, "data": E.models.new_dict("payload")}
+        return {"ci": ci, "ci2": ci2, "vs": vs, "arch": arch, "arch2": arch2, "data": E.models.new_dict("payload")}
 
     def call(self, E, st):
         E.call(E.getattr_(st["ci"].fields["variants"], "serialize"), [st["data"]])
@@ -375,7 +379,7 @@ class ForestRoundTrip(Contract):
 
     def concretise(self, model, st):
         vs = st["vs"]
-        inp = {"arch": concretise.value_of(model, st["arch"])}
+        inp = {"arch": concretise.value_of(model, st["arch"]), "foreign": concretise.value_of(model, st["arch2"])}
         for tag in ("T", "C", "U"):
             f = vs[tag][1]
             inp[tag] = dict((k, concretise.value_of(model, f[k])) for k in ("id", "name", "type", "path"))
@@ -395,6 +399,7 @@ class ForestRoundTrip(Contract):
                     yield dict(inp, is_layered_in=False)
                     inp["is_layered_in"] = True
                 yield inp
+                yield dict(inp, foreign="src")
 
     def native_eval(self, inputs):
         CI = self.src.mods["composeinfo"]
@@ -405,7 +410,11 @@ class ForestRoundTrip(Contract):
             v = CI.Variant(ci)
             f = inputs[tag]
             v.id, v.uid, v.name, v.type, v.arches = f["id"], uid, f["name"], f["type"], set([arch])
-            v.paths.os_tree = {arch: f["path"], arch + "-foreign": "foreign/%s" % tag}
+            foreign = inputs.get("foreign", arch + "-foreign")
+            if foreign == arch:
+                foreign = arch + "-foreign"
+            v.paths.os_tree = {arch: f["path"], foreign: "foreign/%s" % tag}
+            v.paths.source_tree = {foreign: "foreign-src/%s" % tag}
             v.paths.packages = {arch: ""}
             return v
         T_ = mk("T", inputs["T"]["id"])
